@@ -490,8 +490,8 @@ def o_rle_rc(args, c):
     if _fault(c):
         return _fault(c)
     n = (len(args[0]) - 1) // 2
-    if 2 * int(c["rc"]) > n:
-        return "%s runs reported for %d bytes (a run takes at least 2 bytes)" % (c["rc"], n)
+    if int(c["rc"]) > n:
+        return "%s runs reported for %d bytes (every counted run occupies at least one byte)" % (c["rc"], n)
     return None
 
 
@@ -583,7 +583,9 @@ TRUST = ["qsort/malloc/memcpy of libc behave as specified (qsort = the sorted pe
          "Coq.Sorting.Mergesort and Coq.FSets.FMapPositive of the standard library (used by the executable model)"]
 ASSUME = ["no size_t counter of the encoders wraps: 18*count < 2^64 (the destination buffer exists in memory)",
           "arrays of fewer than 2^32 elements for the dictionary codec (uint32_t unique counter)",
-          "decoder inputs of the non-length-taking RLE decoders are outputs of the RLE encoders (C02/C13/C16)"]
+          "varintRLEDecodeWithHeader / varintRLEGetAt / varintRLEGetCount take no input length: their inputs are "
+          "outputs of the RLE encoders (C02/C13/C16); varintRLEDecode is also covered on hostile run streams "
+          "whose declared lengths reach the capacity"]
 
 RULE_ENC = ("arrays given as segment lists: run lengths and array lengths on both sides of 240/241, 2287/2288, "
             "127..129, 4095..4097 (thorough: 65535/65536, 67823/67824), values from every tagged-length boundary and "
